@@ -78,29 +78,44 @@ def run(rep):
     mir = Mir()
     short = q.replace('crate::', '')
     callers = 0
-    for cn, cb in sorted(mir.bodies.items()):
-        for bb, t in cb.calls():
-            if cname(t) == short:
+    # (function, index of its source parameter, index of its include-path parameter) - followed upwards to the public functions
+    f_params = [p['pat']['name'] for p in f['params']]
+    work = [(short, f_params.index(strs[0]['pat']['name']), f_params.index(opts[0]['pat']['name']))]
+    done = set()
+    while work:
+        fn, si, pi = work.pop()
+        if fn in done:
+            continue
+        done.add(fn)
+        for cn, cb in sorted(mir.bodies.items()):
+            for bb, t in cb.calls():
+                if cname(t) != fn:
+                    continue
                 callers += 1
-                for idx, label in ((0, 'source'),):
-                    a = t['args'][idx]
-                    r = canon(cb, op_place(a)) if op_place(a) else None
-                    ok = r is not None and 1 <= r[0] <= cb.arg_count and r[1] in ('', '&', '*') and 'str' in cb.locals[r[0]]
-                    rep.check(ok, 'C16.wrapper-passthrough', f'{label}:{cn}', cb.where(bb),
-                              f'{cn} does not pass its own {label} parameter unchanged to {short} (root {r}): the embedded text differs from the caller\'s input', ok_detail=f'{label} forwarded unchanged')
-                # include path: either a constant None or Some(own parameter)
-                a = t['args'][1]
-                ok = 'const' in a
-                if not ok and op_place(a):
-                    l = op_place(a)['l']
+                a = t['args'][si]
+                r = canon(cb, op_place(a)) if op_place(a) else None
+                ok = r is not None and 1 <= r[0] <= cb.arg_count and r[1] in ('', '&', '*') and 'str' in cb.locals[r[0]]
+                rep.check(ok, 'C16.wrapper-passthrough', f'source:{cn}', cb.where(bb),
+                          f'{cn} does not pass its own source parameter unchanged to {fn} (root {r}): the embedded text differs from the caller\'s input', ok_detail='source forwarded unchanged')
+                a2 = t['args'][pi]
+                okp = 'const' in a2
+                nxt_pi = None
+                if not okp and op_place(a2):
+                    r2 = canon(cb, op_place(a2))
+                    if r2 and 1 <= r2[0] <= cb.arg_count and r2[1] in ('', '&', '*'):
+                        okp = True          # its own Option<&str> parameter, handed through
+                        nxt_pi = r2[0] - 1
+                    l = op_place(a2)['l']
                     for _, kind, x in cb.defs().get(l, []):
                         if kind == 'assign' and x['rv']['rk'] == 'aggregate' and x['rv']['agg'].endswith('Option::Some'):
-                            r = canon(cb, op_place(x['rv']['ops'][0])) if op_place(x['rv']['ops'][0]) else None
-                            ok = r is not None and 1 <= r[0] <= cb.arg_count and r[1] in ('', '&', '*')
+                            r3 = canon(cb, op_place(x['rv']['ops'][0])) if op_place(x['rv']['ops'][0]) else None
+                            okp = r3 is not None and 1 <= r3[0] <= cb.arg_count and r3[1] in ('', '&', '*')
                         if kind == 'assign' and x['rv']['rk'] == 'aggregate' and x['rv']['agg'].endswith('Option::None'):
-                            ok = True
-                rep.check(ok, 'C16.wrapper-passthrough', f'include-path:{cn}', cb.where(bb),
-                          f'{cn} does not pass None / Some(its own path parameter) unchanged as the include path', ok_detail='include path forwarded unchanged')
+                            okp = True
+                rep.check(okp, 'C16.wrapper-passthrough', f'include-path:{cn}', cb.where(bb),
+                          f'{cn} does not pass None / Some(its own path parameter) / its own Option parameter unchanged as the include path', ok_detail='include path forwarded unchanged')
+                if ok and not cb.j['pub'] and nxt_pi is not None:
+                    work.append((cn, r[0] - 1, nxt_pi))
     rep.floor('public wrappers calling the generating function', callers, 2)
     from common import include
     include(rep, 'c17', ('C17.1.parse-input',), 'parsed-text-is-the-input')
